@@ -1,7 +1,9 @@
 package c13
 
 import (
+	"encoding/binary"
 	"fmt"
+	"math"
 	"math/rand"
 	"regexp"
 	"runtime"
@@ -10,12 +12,15 @@ import (
 	"sync/atomic"
 	"time"
 
+	"github.com/EliCDavis/polyform/formats/stl"
 	"github.com/EliCDavis/polyform/generator/artifact"
 	"github.com/EliCDavis/polyform/generator/artifact/basics"
 	"github.com/EliCDavis/polyform/generator/graph"
 	"github.com/EliCDavis/polyform/generator/parameter"
+	"github.com/EliCDavis/polyform/modeling"
 	"github.com/EliCDavis/polyform/nodes"
 	"github.com/EliCDavis/polyform/refutil"
+	"github.com/EliCDavis/vector/vector3"
 )
 
 // ---------------------------------------------------------------------------
@@ -27,9 +32,10 @@ const (
 	pString = iota
 	pInt
 	pFile
+	pVec // parameter.Vector3Array: slice-valued, its data is aliased by meshes built from it
 )
 
-var pKindName = []string{"string", "int", "file"}
+var pKindName = []string{"string", "int", "file", "vec"}
 
 type paramDesc struct {
 	Kind int    `json:"kind"`
@@ -45,6 +51,10 @@ type prodDesc struct {
 	Name   string `json:"name"`
 	Node   int    `json:"node"`
 	Binary bool   `json:"binary,omitempty"`
+	// Stl: a real stl.Artifact over a mesh whose Position attribute IS the slice of vector
+	// parameter Param (no copy); the bytes are formatted from the mesh at Write time.
+	Stl   bool `json:"stl,omitempty"`
+	Param int  `json:"param,omitempty"`
 }
 
 type graphDesc struct {
@@ -116,6 +126,10 @@ func (g *graphDesc) reach() (reachable []bool, twoRoutes int) {
 	reachable = make([]bool, len(g.Params))
 	multi := make([]bool, len(g.Params))
 	for _, p := range g.Producers {
+		if p.Stl {
+			reachable[p.Param] = true
+			continue
+		}
 		cnt := map[int]int{}
 		for _, k := range g.occurrences(p.Node, nil) {
 			cnt[k]++
@@ -155,9 +169,13 @@ func designGraph(r *rand.Rand) *graphDesc {
 	for k := 0; k < 3; k++ {
 		g.Params = append(g.Params, paramDesc{Kind: pString})
 	}
-	if r.Intn(2) == 0 {
+	switch r.Intn(4) {
+	case 0:
 		g.Params[2].Kind = pInt
 		g.Shape = "design+int"
+	case 1, 2:
+		g.Params[1].Kind = pVec // the parameter shared by M1 and M2
+		g.Shape = "design+vec"
 	}
 	g.Nodes = []nodeDesc{
 		{In: []int{pref(0), pref(1)}},
@@ -165,6 +183,7 @@ func designGraph(r *rand.Rand) *graphDesc {
 		{In: []int{0, 1, pref(0)}},
 	}
 	g.Producers = []prodDesc{{Name: "out.txt", Node: 2}, {Name: "copy.txt", Node: 2}, {Name: "m1.txt", Node: 0}}
+	g.addStlProducers(r, 1)
 	return g
 }
 
@@ -176,11 +195,13 @@ func randomGraph(r *rand.Rand) *graphDesc {
 	np := 2 + r.Intn(4)
 	for k := 0; k < np; k++ {
 		kind := pString
-		switch r.Intn(6) {
+		switch r.Intn(8) {
 		case 0, 1:
 			kind = pInt
 		case 2:
 			kind = pFile
+		case 3, 4, 5:
+			kind = pVec
 		}
 		g.Params = append(g.Params, paramDesc{Kind: kind})
 	}
@@ -231,7 +252,17 @@ func randomGraph(r *rand.Rand) *graphDesc {
 	if r.Intn(3) == 0 {
 		g.Producers = append(g.Producers, prodDesc{Name: "other.bin", Node: r.Intn(nm), Binary: true})
 	}
+	g.addStlProducers(r, 4)
 	return g
+}
+
+// addStlProducers puts an stl producer on vector parameters (always when oneIn == 1).
+func (g *graphDesc) addStlProducers(r *rand.Rand, oneIn int) {
+	for k, p := range g.Params {
+		if p.Kind == pVec && (oneIn <= 1 || r.Intn(oneIn) != 0) {
+			g.Producers = append(g.Producers, prodDesc{Name: fmt.Sprintf("cloud%d.stl", k), Stl: true, Param: k, Node: -1})
+		}
+	}
 }
 
 func (g *graphDesc) sig() string {
@@ -241,7 +272,12 @@ func (g *graphDesc) sig() string {
 	}
 	maxd := 0
 	bin := 0
+	stl := 0
 	for _, p := range g.Producers {
+		if p.Stl {
+			stl++
+			continue
+		}
 		if d := g.depth(p.Node); d > maxd {
 			maxd = d
 		}
@@ -250,7 +286,7 @@ func (g *graphDesc) sig() string {
 		}
 	}
 	_, two := g.reach()
-	return fmt.Sprintf("%s/p=%s/n%d/depth%d/prod%d(bin%d)/2route%d", g.Shape, kinds, len(g.Nodes), maxd, len(g.Producers), bin, two)
+	return fmt.Sprintf("%s/p=%s/n%d/depth%d/prod%d(bin%d,stl%d)/2route%d", g.Shape, kinds, len(g.Nodes), maxd, len(g.Producers), bin, stl, two)
 }
 
 // ---------------------------------------------------------------------------
@@ -348,6 +384,127 @@ func (d BytesToStringData) Process() (string, error) {
 
 type BytesToStringNode = nodes.Struct[string, BytesToStringData]
 
+// ---- vector parameters ---------------------------------------------------------------
+//
+// A value of a vector parameter is identified by (id, n): n elements (id, j, n), j = 0..n-1;
+// its display text is "v<id>x<n>". Any other content (elements of two values mixed, wrong
+// count) is displayed as "mix..." and is the rendering of no state.
+
+func vecDisplay(pts [][3]int) string {
+	if len(pts) == 0 {
+		return "empty"
+	}
+	ok := true
+	for j, p := range pts {
+		if p[0] != pts[0][0] || p[1] != j || p[2] != len(pts) {
+			ok = false
+		}
+	}
+	if ok {
+		return fmt.Sprintf("v%dx%d", pts[0][0], len(pts))
+	}
+	var b strings.Builder
+	b.WriteString("mix")
+	for _, p := range pts {
+		fmt.Fprintf(&b, "i%dj%dn%d", p[0], p[1], p[2])
+	}
+	return b.String()
+}
+
+func parseVec(display string) (id, n int) {
+	fmt.Sscanf(display, "v%dx%d", &id, &n)
+	return
+}
+
+func vecPoints(display string) []vector3.Float64 {
+	id, n := parseVec(display)
+	out := make([]vector3.Float64, n)
+	for j := range out {
+		out[j] = vector3.New(float64(id), float64(j), float64(n))
+	}
+	return out
+}
+
+// vecJSON is the message of a vector value, written out by hand ({"x":..,"y":..,"z":..}).
+// badAt >= 0: element badAt carries a string where a number belongs (the prefix decodes).
+func vecJSON(display string, badAt int) []byte {
+	id, n := parseVec(display)
+	var b strings.Builder
+	b.WriteByte('[')
+	for j := 0; j < n; j++ {
+		if j > 0 {
+			b.WriteByte(',')
+		}
+		if j == badAt {
+			fmt.Fprintf(&b, `{"x":"%d","y":%d,"z":%d}`, id, j, n)
+		} else {
+			fmt.Fprintf(&b, `{"x":%d,"y":%d,"z":%d}`, id, j, n)
+		}
+	}
+	b.WriteByte(']')
+	return []byte(b.String())
+}
+
+func sliceDisplay(v []vector3.Float64) string {
+	pts := make([][3]int, len(v))
+	for i, p := range v {
+		pts[i] = [3]int{int(p.X()), int(p.Y()), int(p.Z())}
+	}
+	return vecDisplay(pts)
+}
+
+// VecToStringData renders a vector parameter into the text DAG (a copy, made under the lock).
+type VecToStringData struct {
+	In   nodes.NodeOutput[[]vector3.Float64]
+	Plan *pausePlan
+}
+
+func (d VecToStringData) Process() (string, error) {
+	v := sliceDisplay(d.In.Value())
+	d.Plan.pause(0)
+	return v, nil
+}
+
+type VecToStringNode = nodes.Struct[string, VecToStringData]
+
+// CloudMeshData builds a mesh over the parameter's slice WITHOUT copying it (as
+// modeling.NewPointCloud / SetFloat3Attribute do): triangle i = (i,i,i), so the binary STL
+// written later lists element i as the first vertex of facet i.
+type CloudMeshData struct {
+	In nodes.NodeOutput[[]vector3.Float64]
+}
+
+func (d CloudMeshData) Process() (modeling.Mesh, error) {
+	pts := d.In.Value()
+	idx := make([]int, 0, 3*len(pts))
+	for i := range pts {
+		idx = append(idx, i, i, i)
+	}
+	return modeling.NewTriangleMesh(idx).SetFloat3Attribute(modeling.PositionAttribute, pts), nil
+}
+
+type CloudMeshNode = nodes.Struct[modeling.Mesh, CloudMeshData]
+
+// decodeSTL reads a binary STL by its published layout (80-byte header, uint32 facet count,
+// 50 bytes per facet: normal, 3 vertices, attribute) and displays the first vertices.
+func decodeSTL(b []byte) string {
+	if len(b) < 84 {
+		return fmt.Sprintf("mixshort%d", len(b))
+	}
+	n := int(binary.LittleEndian.Uint32(b[80:84]))
+	if len(b) != 84+50*n {
+		return fmt.Sprintf("mixsize%dfor%d", len(b), n)
+	}
+	pts := make([][3]int, n)
+	for k := 0; k < n; k++ {
+		off := 84 + 50*k + 12
+		for c := 0; c < 3; c++ {
+			pts[k][c] = int(math.Float32frombits(binary.LittleEndian.Uint32(b[off+4*c:])))
+		}
+	}
+	return vecDisplay(pts)
+}
+
 // StringToBytesData feeds a binary producer.
 type StringToBytesData struct {
 	In nodes.NodeOutput[string]
@@ -373,6 +530,8 @@ func encodeParam(kind int, display string) []byte {
 		return []byte(`"` + display + `"`)
 	case pInt:
 		return []byte(display)
+	case pVec:
+		return vecJSON(display, -1)
 	}
 	return []byte(display)
 }
@@ -381,6 +540,7 @@ func build(d *graphDesc, r *rand.Rand, intensity int) *live {
 	lv := &live{}
 	pnodes := make([]nodes.Node, len(d.Params))
 	pouts := make([]nodes.NodeOutput[string], len(d.Params))
+	vouts := make([]nodes.NodeOutput[[]vector3.Float64], len(d.Params))
 	for k := range d.Params {
 		p := &d.Params[k]
 		switch p.Kind {
@@ -393,6 +553,12 @@ func build(d *graphDesc, r *rand.Rand, intensity int) *live {
 			n := &parameter.Int{Name: fmt.Sprintf("p%d", k), DefaultValue: 7 + k}
 			pnodes[k] = n
 			pouts[k] = (&ItoaNode{Data: ItoaData{In: n.Out(), Plan: genPlan(r, &lv.execs, intensity)}}).Out()
+		case pVec:
+			p.Init = fmt.Sprintf("v%dx%d", 900+k, 2+k%3)
+			n := &parameter.Vector3Array{Name: fmt.Sprintf("p%d", k), DefaultValue: vecPoints(p.Init)}
+			pnodes[k] = n
+			vouts[k] = n.Out()
+			pouts[k] = (&VecToStringNode{Data: VecToStringData{In: n.Out(), Plan: genPlan(r, &lv.execs, intensity)}}).Out()
 		case pFile:
 			p.Init = fmt.Sprintf("f%dinit", k)
 			n := &parameter.File{Name: fmt.Sprintf("p%d", k)}
@@ -424,7 +590,10 @@ func build(d *graphDesc, r *rand.Rand, intensity int) *live {
 	g := graph.New(&refutil.TypeFactory{})
 	for _, p := range d.Producers {
 		var out nodes.NodeOutput[artifact.Artifact]
-		if p.Binary {
+		if p.Stl {
+			mesh := (&CloudMeshNode{Data: CloudMeshData{In: vouts[p.Param]}}).Out()
+			out = (&stl.ArtifactNode{Data: stl.ArtifactNodeData{In: mesh}}).Out()
+		} else if p.Binary {
 			out = basics.NewBinaryNode((&StringToBytesNode{Data: StringToBytesData{In: nouts[p.Node]}}).Out())
 		} else {
 			out = basics.NewTextNode(nouts[p.Node])
